@@ -11,5 +11,6 @@ CONSTANTS
   CallsOnly = FALSE
   Rich = FALSE
   Inplace = TRUE
+  Collectors = TRUE
 INVARIANTS ScopeWellFormed ReplayAgrees MergeIndependent
 CHECK_DEADLOCK FALSE
